@@ -16,6 +16,7 @@ By `decide` on the tables regenerated from the source at every run:
 -/
 import CBV.Lemmas.C19
 import CBV.Lemmas.C19Geo
+import CBV.Gen.TC19
 
 namespace CBV.C19
 
